@@ -67,9 +67,11 @@ SHAPES = [
     # code blocks, empties, junk
     "\u0663", "\u0668", "\u00b2", "^D\u0663", "\u0663.", "1\u0663", "0x\u0663", "\u0663$", "\u0661\u0662", "\uff13", "\u2167", "^R\u212a", "^R\u0130", "\u017fp", "r\u0661",
     ".once", ".end\nnop", ".include \"inc2.mac\"", ".include \"once3.mac\"", "lbl9: nop", "1: nop", ". = .+2", ".link 3000", "make_bin", ".extern all", "q7 = .",
+    "1" * 4301 + ".", "9" * 4301, "^D" + "7" * 4400, "1" * 4301, "0x" + "f" * 5000, "1" * 4301 + "./" + "1" * 4301 + ".",
     "{ nop }", "{", "}", "{ }", "{ { nop } }", "", " ", ";", "; comment", ":", "::", "=", "==", "= 1", "$", "?", "\\", "`", "\x00", "\t", " ", "nop", "mov", ".word", ".end",
 ]
-BIG_SHAPES = {"40000000000", "1 << 20000.", "1 << 70.", "1 _ 100000.", "200000", "1 >> -20000.", "1 >> 1 << 70."}
+BIG_SHAPES = {"40000000000", "1 << 20000.", "1 << 70.", "1 _ 100000.", "200000", "1 >> -20000.", "1 >> 1 << 70.",
+              "1" * 4301 + ".", "9" * 4301, "^D" + "7" * 4400, "1" * 4301, "0x" + "f" * 5000}
 TAILS = ["", "\nx = 4\na = 6\ny = 2\nlbl: nop\n"]
 
 DEF_FORMS = ["%s = %s", "%s = %s+1", "%s = %s*2", "%s = %s/2"]
@@ -394,7 +396,9 @@ def check(case, r, tier):
         for out_args, directives in ((["-o", "x.bin"], ""), (["-o", "x.raw"], ""), ([], "make_bin\n"), ([], "make_wav\n"), ([], "make_turbo_wav\n"),
                                      ([], "make_raw\nmake_bin\n"), (["--implicit-bin"], ""), (["-o", "-"], ""), (["-o-.bin"], ""), (["-o", "nodir/x.bin"], ""),
                                      ([], "make_bin \"nodir/x.bin\"\n"), ([], "make_wav \"t.wav\", \"\u03b1\"\n"), ([], "make_wav \"\u0451.wav\"\n"),
-                                     ([], "make_wav \"t.wav\", \"seventeen letters!\"\n"), ([], "make_bin \"\"\n"), ([], "make_raw \".\"\n"), ([], "make_bin \"~speaker\"\n")):
+                                     ([], "make_wav \"t.wav\", \"seventeen letters!\"\n"), ([], "make_bin \"\"\n"), ([], "make_raw \".\"\n"), ([], "make_bin \"~speaker\"\n"),
+                                     ([], "make_raw \"x\" <0>\n"), ([], "make_bin <0>\n"), ([], "make_bin \"a\" <55296.>\n"), ([], "make_wav <0xd800>, \"NAME\"\n"), ([], "make_wav \"t.wav\", \"N\" <0xd800>\n"),
+                                     ([], "make_raw \"" + "d/" * 3000 + "x\"\n"), ([], "make_raw \"" + "n" * 300 + "\"\n")):
             for src in (small, big):
                 for extra in ([], ["--lst"], ["--report-format", "bare"]):
                     runs.append((["m.mac"] + out_args + extra, {"m.mac": src + directives}))
